@@ -259,6 +259,19 @@ def shape(obj, modname):
     return dict(kind="other", type=type(obj).__name__)
 
 
+def cell_type_inmod(fn, modname):
+    """does a closure cell of fn hold an object whose *type* is defined by the module (an instance of a module class, a
+    class with an in-module metaclass)?  `type(old) != type(new)` then compares an old with a scratch type."""
+    for c in getattr(fn, "__closure__", None) or ():
+        try:
+            v = c.cell_contents
+        except ValueError:
+            continue
+        if getattr(type(v), "__module__", None) == modname:
+            return True
+    return False
+
+
 def same_shape(a, b):
     """name, closure shape, slot layout and base classes unchanged (cell *values* are D17's hypothesis, reported apart)."""
     if a["kind"] != b["kind"] or a["kind"] == "other":
@@ -513,6 +526,26 @@ class Abstractor:
         self.tok = {}
         self.keep = []
         self.unsupported = []
+        self.dyn = {}     # model id -> ["f", type name] | ["h", model id of the class]: exact type when not the kind's default
+
+    @staticmethod
+    def keystr(k):
+        """dict keys as model strings: `_livepatch__dict` orders keys by str(key); non-string keys get the type appended so
+        that 1 and '1' stay different keys"""
+        return k if isinstance(k, str) else "%s\x01%s" % (str(k), type(k).__name__)
+
+    def exact_type(self, o, default):
+        t = type(o)
+        if t is default:
+            return
+        i = self.ids[id(o)]
+        if self.is_modclass(t):
+            self.dyn[i] = ["h", self.ref(t)]
+        else:
+            self.dyn[i] = ["f", t.__module__ + "." + t.__qualname__]
+
+    def dyn_table(self):
+        return [[i] + v for i, v in sorted(self.dyn.items())]
 
     def token(self, o):
         if id(o) not in self.tok:
@@ -543,8 +576,7 @@ class Abstractor:
                         defaults=self.token(o.__defaults__), doc=self.token(o.__doc__), dict=self.ref(o.__dict__),
                         cells=cells, freevars=list(o.__code__.co_freevars))
         if self.is_modclass(o):
-            if type(o) is not type:
-                self.unsupported.append("metaclass")
+            self.exact_type(o, type)
             if hasattr(o, "__livepatch__") or hasattr(o, "__reload_update__"):
                 self.unsupported.append("hook")
             sl = o.__dict__.get("__slots__")
@@ -552,17 +584,21 @@ class Abstractor:
                 self.unsupported.append("odd __slots__")
                 sl = None
             for b in o.__bases__:
-                if b is not object and not self.is_modclass(b):
+                if b is not object and b is not type and not self.is_modclass(b):
                     self.unsupported.append("foreign base")
             return dict(k="cls", name=o.__name__, modn=o.__module__, slots=list(sl) if sl is not None else None,
                         bases=[self.ref(b) for b in o.__bases__ if self.is_modclass(b)],
                         attrs=[[k, self.ref(v)] for k, v in sorted(o.__dict__.items())])
         if o is _BUILTINS_DICT:
             return dict(k="atom", ty="builtins.dict", val="<builtins namespace>")
-        if type(o) is dict:
-            if not all(isinstance(k, str) for k in o):
-                self.unsupported.append("non-str dict key")
-            return dict(k="dict", entries=[[str(k), self.ref(v)] for k, v in sorted(o.items(), key=lambda kv: str(kv[0]))])
+        if isinstance(o, dict):
+            if type(o).__module__ == mn:
+                self.unsupported.append("dict subclass defined in the module")
+            self.exact_type(o, dict)
+            ents = [[self.keystr(k), self.ref(v)] for k, v in list(o.items())]
+            if len(set(e[0] for e in ents)) != len(ents):
+                self.unsupported.append("dict keys collide under str()")
+            return dict(k="dict", entries=sorted(ents))
         if isinstance(o, types.CellType):
             try:
                 return dict(k="cell", content=self.ref(o.cell_contents))
@@ -592,8 +628,6 @@ class Abstractor:
             if hasattr(type(o), "__livepatch__") or hasattr(type(o), "__reload_update__"):
                 self.unsupported.append("hook")
             return dict(k="inst", cls=self.ref(type(o)), dict=self.ref(d) if type(d) is dict else None, slots=sorted(slots))
-        if isinstance(o, dict):
-            self.unsupported.append("dict subclass")
         try:
             val = repr(o)[:200]
         except Exception:
@@ -720,6 +754,9 @@ class C16(Prop):
         "Pfb.C16.reloadNeeded_iff",
         "Pfb.C16.C16_second_edit_reloaded",
         "Pfb.C16.C16_guard_skip_unchanged",
+        "Pfb.C16.cell_metaclass_subclass_updatable",
+        "Pfb.C16.cell_dict_subclass_updatable",
+        "Pfb.C16.mem_sortStrs",
         "Pfb.C16.C16_names",
         "Pfb.C16.lp_dict_keys",
         "Pfb.C16.C16_function",
@@ -879,6 +916,19 @@ class C16(Prop):
                     for a in sorted(v.__dict__):
                         if not a.startswith("__") and _is_callable_member(getattr(v, a, None)):
                             cap_methods[n + "." + a] = getattr(v, a)
+            cap_bound = {}
+            for n in pubs:
+                v = md[n]
+                if type(v).__module__ == name and not isinstance(v, type):
+                    for a in sorted(dir(type(v))):
+                        if a.startswith("__"):
+                            continue
+                        try:
+                            b = getattr(v, a)
+                        except Exception:
+                            continue
+                        if isinstance(b, types.MethodType) and b.__self__ is v:
+                            cap_bound[n + "." + a] = b
             old_shapes = {n: shape(md[n], name) for n in pubs}
             for q, v in cap_methods.items():
                 old_shapes[q] = shape(v.__func__ if isinstance(v, types.MethodType) else v, name)
@@ -917,6 +967,7 @@ class C16(Prop):
             ab = Abstractor(name)
             kinfo = dict(module=ab.ref(m))
             kinfo["pre"] = ab.heap(0)
+            kinfo["dyn"] = ab.dyn_table()
             n_pre = len(ab.objs)
             kinfo["sysmods"] = [[name, ab.ids[id(sys.modules[name])]]] if id(sys.modules.get(name)) in ab.ids else []
             real_lp = LP.livepatch
@@ -926,6 +977,7 @@ class C16(Prop):
                     k0 = len(ab.objs)
                     ab.ref(new)
                     kinfo["objs"] = ab.heap(k0)
+                    kinfo["dyn"] = ab.dyn_table()
                     kinfo["n_mid"] = len(ab.objs)
                 return real_lp(old, new, modname=modname, visit_stack=visit_stack, cache=cache,
                                assume_type=assume_type, heed_hook=heed_hook)
@@ -1062,7 +1114,10 @@ class C16(Prop):
                     ident[n] = dict(imported=getattr(other, n) is md[n], thunk=thunks[n]() is md[n],
                                     boxed=box[pubs.index(n)] is md[n],
                                     cells_same=old_shapes[n].get("cells") == new_shapes[n].get("cells"),
-                                    bases_inmod=any(b[0] for b in new_shapes[n].get("bases", [])))
+                                    bases_inmod=any(b[0] for b in new_shapes[n].get("bases", [])),
+                                    cell_type_inmod=cell_type_inmod(getattr(other, n), name),
+                                    meta_shadowed=bool(isinstance(fd[n], type) and type(fd[n]).__module__ == name
+                                                       and fd.get(type(fd[n]).__name__) is not type(fd[n])))
             obs["keep_names"] = keep_names
             obs["identity"] = ident
             meth_ident = {}
@@ -1082,10 +1137,25 @@ class C16(Prop):
                 raw_old_kind = type(inspect.getattr_static(md[cn], a, None)).__name__
                 raw_new_kind = type(inspect.getattr_static(fd[cn], a, None)).__name__
                 meth_ident[q] = dict(same=of is cf, cells_same=old_shapes[q].get("cells") == shape(nf, name).get("cells"),
-                                     kind_same=raw_old_kind == raw_new_kind,
+                                     kind_same=raw_old_kind == raw_new_kind, cell_type_inmod=cell_type_inmod(of, name),
                                      got=_call(v, name) if isinstance(v, types.MethodType) or raw_new_kind == "staticmethod" else None,
                                      want=_call(fv, name) if isinstance(v, types.MethodType) or raw_new_kind == "staticmethod" else None)
             obs["method_identity"] = meth_ident
+            # bound methods of instances that existed before the reload must run the new code
+            bound_obs = {}
+            for q, b in cap_bound.items():
+                n, a = q.split(".")
+                if n not in fd or md.get(n) is not b.__self__ or type(b.__self__).__name__ not in keep_names:
+                    continue
+                fb = getattr(fd[n], a, None)
+                if not (isinstance(fb, types.MethodType) and fb.__self__ is fd[n]):
+                    continue
+                if not same_shape(shape(b.__func__, name), shape(fb.__func__, name)):
+                    continue
+                bound_obs[q] = dict(got=_call(b, name), want=_call(fb, name),
+                                    cells_same=shape(b.__func__, name).get("cells") == shape(fb.__func__, name).get("cells"),
+                                    cell_type_inmod=cell_type_inmod(b.__func__, name))
+            obs["bound_methods"] = bound_obs
             obs["post"] = observe(md, name)
             obs["fresh"] = observe(fd, name)
             capns = {n: getattr(other, n) for n in keep_names}
@@ -1209,6 +1279,11 @@ class C16(Prop):
             elif mi["got"] != mi["want"] and not any(f.get("name") == cn for f in fails):
                 fails.append(dict(what="captured method does not behave as the new source", name=q, got=mi["got"],
                                   want=mi["want"], identity=mi, flags=flags.get(cn), **brief))
+        for q, bo in obs.get("bound_methods", {}).items():
+            n = q.split(".")[0]
+            if bo["got"] != bo["want"] and not any(f.get("name") in (n, q) for f in fails):
+                fails.append(dict(what="captured method does not behave as the new source", name=q, got=bo["got"],
+                                  want=bo["want"], identity=bo, flags=flags.get(n), bound_of_instance=True, **brief))
         return fails[:6]
 
 
@@ -1233,7 +1308,7 @@ class C16(Prop):
         req = dict(op="xreload", heap=k["pre"], sysmods=k["sysmods"], objs=k.get("objs", []),
                    name=k["sysmods"][0][0] if k["sysmods"] else "?", module=k["module"],
                    compileOk=obs.get("exec_fails") != "SyntaxError",
-                   mtime=dict(k="atom", ty="builtins.float", val=k["mtime"]), fuel=4000, fixes=detect_fixes(),
+                   mtime=dict(k="atom", ty="builtins.float", val=k["mtime"]), fuel=4000, fixes=detect_fixes(), dyn=k.get("dyn", []),
                    loadtime=obs["guard"]["loadtime_ns"], mtimeNs=obs["guard"]["mtime_ns"], same=obs["guard"]["same"])
         if obs.get("exec_fails") is not None and obs["exec_fails"] != "SyntaxError":
             req["fail"] = (case.get("fail") or {}).get("at", 0)
@@ -1465,6 +1540,11 @@ C16.families = {
     "kwdefaults_not_updated": (lambda case, f: f.get("what", "").startswith(("namespace differs", "captured reference does not behave",
                                                                               "captured method does not behave"))
                                and bool((f.get("flags") or {}).get("kwdefaults_changed"))),
+    "type_of_cell_or_class_defined_in_module": (lambda case, f: f.get("what", "").startswith(("captured reference lost identity",
+                                                                                              "captured method lost identity"))
+                                                and (bool(f.get("identity", {}).get("cell_type_inmod"))
+                                                     or bool(f.get("identity", {}).get("meta_shadowed")))),
+    "enum_member_reassigned": C16._fam_raise("cannot reassign member"),
     "slots_instance_setattr_typeerror": C16._fam_raise("setattr expected 3 arguments"),
     "class_dict_descriptor_not_writable": C16._fam_raise("attribute '__dict__' of 'type' objects is not writable"),
     "bases_assignment_layout": C16._fam_raise("__bases__ assignment"),
